@@ -32,6 +32,9 @@ def main():
                 except Exception as e:
                     hits.append("%s:ANALYSIS-ERROR(%s)" % (p, str(e)[:60]))
                     continue
+                if getattr(run, "aborted", None) and not run.findings:
+                    hits.append("%s:ANALYSIS-ERROR(%s)" % (p, run.aborted[:60]))
+                    continue
                 known = {"%s|%s" % (k["rule"], k["key"]) for k in report.load_known()["findings"] if k["property"] == p}
                 new = [f for f in run.findings if f.ident not in known]
                 if new:
